@@ -42,9 +42,22 @@ def run(tier):
         plans.append(dict(name="hop", fam=hopfam, algo=a, budget=3, steps=4 if quick else 5, cap=110 if quick else None, mc=not quick))
         plans.append(dict(name="blocks", fam=blkfam, algo=a, budget=3, steps=4 if quick else 5, sim=(20, 12) if quick else (400, 16), cap=130 if quick else None, mc=not quick or a == "epidemic"))
     for a in (["epidemic"] if quick else ALGOS):
+        def expiry_met(h, fam=None):
+            # behaviours in which a bundle whose lifetime has run out meets an occasion to be transmitted: received with a peer
+            # connected after time has advanced, or stored before and retried afterwards
+            acts = [st["act"] for st in h]
+            if "Advance" not in acts:
+                return 0
+            i = acts.index("Advance")
+            n = 0
+            for j in range(i + 1, len(h)):
+                if acts[j] == "Receive":
+                    n += 3
+                elif acts[j] in ("PeerUp", "RetryTick") and h[j - 1]["exp"]["stored"]:
+                    n += 2
+            return 10 * n + sum(len(st["exp"]["sends"]) for st in h)
         for nm, lf in (("lifetime", lifefam), ("lifetime-age", lifefam2)):
-            plans.append(dict(name=nm, fam=lf, algo=a, budget=3, steps=5 if quick else 6, cap=60 if quick else 700, mc=not quick,
-                              prefer=lambda h: sum(len(st["exp"]["sends"]) for st in h) + 5 * [st["act"] for st in h].count("Advance")))
+            plans.append(dict(name=nm, fam=lf, algo=a, budget=3, steps=5 if quick else 6, cap=70 if quick else 700, mc=not quick, prefer=expiry_met))
     for a in (["epidemic"] if quick else ["epidemic", "spray", "prophet"]):
         plans.append(dict(name="age-retry", fam=agefam, algo=a, budget=3, steps=3, sim=(1500, 8) if quick else (20000, 10), cap=24 if quick else 300,
                           mc=False, prefer=late_attempts))
